@@ -447,6 +447,14 @@ func (context *svgContext) resolveUse(node *cascadedNode, defs definitions) (*sv
 		if err != nil {
 			return nil, err
 		}
+		// a remote document may (indirectly) use itself
+		if context.inUseIDs.Has(url) {
+			return nil, fmt.Errorf("invalid recursive <use>")
+		}
+		context.inUseIDs.Add(url)
+		defer func() {
+			delete(context.inUseIDs, url)
+		}()
 		content, err := context.urlFetcher(url)
 		if err != nil {
 			logger.WarningLogger.Printf("SVG: fetching <use> content: %s", err)
